@@ -354,6 +354,35 @@ func C19(c *runner.Cfg) *report.Result {
 		if soft {
 			proxy.OutageSoft(true)
 			time.Sleep(time.Duration(1+r.Intn(3)) * time.Millisecond)
+		} else if idx%2 == 0 {
+			// callers keep asking for a connection while the connections die and the redials fail:
+			// they run into the window between a connection's Closed flag and the client's
+			// bookkeeping of that close
+			var spin sync.WaitGroup
+			var stop atomic.Bool
+			for g := 0; g < 4; g++ {
+				spin.Add(1)
+				go func() {
+					defer spin.Done()
+					for !stop.Load() {
+						runner.Catch(func() {
+							ctx := async.TimeoutContext(20 * time.Millisecond)
+							cl.Conn(ctx)
+							ctx.Free()
+						})
+					}
+				}()
+			}
+			time.Sleep(time.Duration(200+r.Intn(800)) * time.Microsecond)
+			proxy.Outage(true)
+			time.Sleep(time.Duration(5+r.Intn(30)) * time.Millisecond)
+			stop.Store(true)
+			if !WaitTimeout(&spin, Watchdog) {
+				c.Abort.Store(true)
+				res.Violate("c19:stall", fmt.Sprintf("Conn callers with a 20 ms timeout context did not return within %v during an outage:\n%s", Watchdog, Goroutines(6)), wit)
+				return
+			}
+			wit["callers_during_outage"] = 4
 		} else {
 			proxy.Outage(true)
 		}
